@@ -2,6 +2,7 @@ package main
 
 import (
 	"fmt"
+	"math/rand"
 	"os"
 	"path/filepath"
 	"strings"
@@ -222,6 +223,65 @@ func init() {
 					}
 				}
 				c.Res.Distribution[fmt.Sprintf("transfers-with-intermediate-reports:%s", side.name)] += b2i(inter > 0)
+			}
+		}
+		// resumed transfers: the peer (the independent reference peer of C05) accepts a proposal at an offset
+		// ("!n"/"An"); every report of the sending side must still lie within [0, total]
+		for i := 0; i < c.Budget(4, 30) && c.TimeLeft(); i++ {
+			sp := newSpec("LA5NTA", "PEER", i%2 == 0)
+			m := genMessage(c.Rng, sp.mycall, "PEER", 200)
+			data := make([]byte, 2000+c.Rng.Intn(c.Budget(8000, 30000)))
+			c.Rng.Read(data)
+			m.AddFile(fbb.NewFile("blob.bin", data))
+			om := newOutMsg(m)
+			sp.outbox = append(sp.outbox, om)
+			comp := fbbCompressed(om)
+			off := 1 + c.Rng.Intn(len(comp)-1)
+			cfg := &peerCfg{master: !sp.master, rng: rand.New(rand.NewSource(c.Rng.Int63())), features: "B2FWIHJM$", policy: map[string]byte{}, expect: map[string][]byte{om.mid: om.data},
+				expectResp: map[string]string{}, offsets: map[string]int{om.mid: off}, expectComp: map[string][]byte{om.mid: comp}, expOrder: []string{om.mid}, expectFW: []string{"LA5NTA"}}
+			ca, cb := newMemPipe(nil, nil)
+			ca.DetectDeadlock()
+			pa := &pacedConn{memConn: ca, pause: map[int]time.Duration{}}
+			if i%2 == 1 {
+				pa.delay = 2 * time.Millisecond // several reporting periods
+			}
+			rec := &statusRec{}
+			tw := newTwin(sp)
+			x := sp.newSession(tw)
+			x.SetStatusUpdater(rec)
+			done := make(chan error, 1)
+			go func() { _, err := x.Exchange(pa); done <- err }()
+			resCh := make(chan *peerResult, 1)
+			go func() { resCh <- runPeer(cb, cfg) }()
+			var err error
+			select {
+			case err = <-done:
+			case <-time.After(60 * time.Second):
+				ca.Kill()
+				err = fmt.Errorf("hang")
+			}
+			pres := <-resCh
+			time.Sleep(50 * time.Millisecond)
+			rep := map[string]interface{}{"scenario": "resume", "offset": off, "compressed_size": len(comp), "session_master": sp.master, "err": fmt.Sprint(err), "peer_violations": pres.violations}
+			if err != nil {
+				c.Violate("C17:exchange-failed:resume", fmt.Sprintf("Exchange failed against a peer that resumes at offset %d: %v", off, err), rep)
+				continue
+			}
+			nDone := 0
+			for _, r := range rec.snapshot() {
+				if r.Sending == nil {
+					continue
+				}
+				if r.BytesTransferred < 0 || r.BytesTransferred > r.BytesTotal || r.BytesTotal > len(comp) {
+					c.Violate("C17:report-out-of-range:send-resumed", fmt.Sprintf("report %d/%d (done=%v) for a compressed size of %d sent from offset %d", r.BytesTransferred, r.BytesTotal, r.Done, len(comp), off), rep)
+				}
+				if r.Done {
+					nDone++
+				}
+				cases = append(cases, Case{Line: fmt.Sprintf("statuscheck send %d %d %s", r.BytesTotal, r.BytesTransferred, b01(r.Done)), Impl: "ok", Desc: fmt.Sprintf("send report %d/%d done=%v (resumed at %d)", r.BytesTransferred, r.BytesTotal, r.Done, off), Class: "send-report-resumed", Nontrivial: !r.Done})
+			}
+			if nDone != 1 {
+				c.Violate("C17:done-count:send-resumed", fmt.Sprintf("%d reports with Done set for a resumed transfer, want exactly one", nDone), rep)
 			}
 		}
 		if raceEnabled {
